@@ -232,6 +232,9 @@ func mkSource(kind string, data []byte, failAfter, tag int, adv []int, frags []i
 	panic("unknown source kind " + kind)
 }
 
+// wrapKinds: the source kinds wrap.go wraps.
+var wrapKinds = []string{"bytes", "strings", "buffer"}
+
 var realKinds = []string{"bytes", "buffer", "strings", "bufio16", "bufio17", "bufio4096", "readonly", "onebyte", "eofwith"}
 
 func parseInts(s string) []int {
@@ -263,94 +266,206 @@ func runBr(src io.Reader, big bool, cs prefix.PrefixCodes, ops []string) []strin
 	pr.Init(src, big)
 	var res []string
 	for _, op := range ops {
-		f := strings.Split(op, ":")
-		stop := false
-		switch f[0] {
-		case "b":
-			n, _ := strconv.Atoi(f[1])
-			var v uint
-			err, p := catch(func() { v = pr.ReadBits(uint(n)) })
-			switch {
-			case p != nil:
-				res = append(res, "b:panic")
-				stop = true
-			case err != nil:
-				res = append(res, "b:"+brErr(err))
-				stop = true
-			default:
-				res = append(res, fmt.Sprintf("b:%d", v))
-			}
-		case "t":
-			n, _ := strconv.Atoi(f[1])
-			v, ok := pr.TryReadBits(uint(n))
-			if ok {
-				res = append(res, fmt.Sprintf("t:%d", v))
-			} else {
-				err, p := catch(func() { v = pr.ReadBits(uint(n)) })
-				switch {
-				case p != nil:
-					res = append(res, "t:panic")
-					stop = true
-				case err != nil:
-					res = append(res, "t:"+brErr(err))
-					stop = true
-				default:
-					res = append(res, fmt.Sprintf("t:%d", v))
-				}
-			}
-		case "p":
-			res = append(res, fmt.Sprintf("p:%d", pr.ReadPads()))
-		case "r":
-			n, _ := strconv.Atoi(f[1])
-			buf := make([]byte, n)
-			var k int
-			var e error
-			_, p := catch(func() {
-				for k < n && e == nil {
-					var c int
-					c, e = pr.Read(buf[k:])
-					k += c
-				}
-			})
-			if p != nil {
-				res = append(res, "r:-:panic")
-				stop = true
-			} else {
-				res = append(res, fmt.Sprintf("r:%s:%s", hx(buf[:k]), brErr(e)))
-				stop = e != nil
-			}
-		case "f":
-			var off int64
-			var e error
-			_, p := catch(func() { off, e = pr.Flush() })
-			if p != nil {
-				res = append(res, "f:0:panic")
-				stop = true
-			} else {
-				res = append(res, fmt.Sprintf("f:%d:%s", off, brErr(e)))
-				stop = e != nil
-			}
-		case "y":
-			var v uint
-			err, p := catch(func() { v = pr.ReadSymbol(&pd) })
-			switch {
-			case p != nil:
-				res = append(res, "y:panic")
-				stop = true
-			case err != nil:
-				res = append(res, "y:"+brErr(err))
-				stop = true
-			default:
-				res = append(res, fmt.Sprintf("y:%d", v))
-			}
-		case "q":
-			res = append(res, fmt.Sprintf("q:%d", pr.BitsRead()))
+		r, stop := brStep(&pr, &pd, op)
+		if r != "" {
+			res = append(res, r)
 		}
 		if stop {
 			break
 		}
 	}
 	return res
+}
+
+// brStep executes one script operation on pr.
+func brStep(pr *prefix.Reader, pd *prefix.Decoder, op string) (res string, stop bool) {
+	f := strings.Split(op, ":")
+	switch f[0] {
+	case "b":
+		n, _ := strconv.Atoi(f[1])
+		var v uint
+		err, p := catch(func() { v = pr.ReadBits(uint(n)) })
+		switch {
+		case p != nil:
+			return "b:panic", true
+		case err != nil:
+			return "b:" + brErr(err), true
+		default:
+			return fmt.Sprintf("b:%d", v), false
+		}
+	case "t":
+		n, _ := strconv.Atoi(f[1])
+		v, ok := pr.TryReadBits(uint(n))
+		if ok {
+			return fmt.Sprintf("t:%d", v), false
+		}
+		err, p := catch(func() { v = pr.ReadBits(uint(n)) })
+		switch {
+		case p != nil:
+			return "t:panic", true
+		case err != nil:
+			return "t:" + brErr(err), true
+		default:
+			return fmt.Sprintf("t:%d", v), false
+		}
+	case "p":
+		return fmt.Sprintf("p:%d", pr.ReadPads()), false
+	case "r":
+		n, _ := strconv.Atoi(f[1])
+		buf := make([]byte, n)
+		var k int
+		var e error
+		_, p := catch(func() {
+			for k < n && e == nil {
+				var c int
+				c, e = pr.Read(buf[k:])
+				k += c
+			}
+		})
+		if p != nil {
+			return "r:-:panic", true
+		}
+		return fmt.Sprintf("r:%s:%s", hx(buf[:k]), brErr(e)), e != nil
+	case "f":
+		var off int64
+		var e error
+		_, p := catch(func() { off, e = pr.Flush() })
+		if p != nil {
+			return "f:0:panic", true
+		}
+		return fmt.Sprintf("f:%d:%s", off, brErr(e)), e != nil
+	case "y":
+		var v uint
+		err, p := catch(func() { v = pr.ReadSymbol(pd) })
+		switch {
+		case p != nil:
+			return "y:panic", true
+		case err != nil:
+			return "y:" + brErr(err), true
+		default:
+			return fmt.Sprintf("y:%d", v), false
+		}
+	case "q":
+		return fmt.Sprintf("q:%d", pr.BitsRead()), false
+	}
+	return "", false
+}
+
+// wrapSrc is a source object of one of the three kinds wrap.go wraps, as its owner holds it.
+type wrapSrc struct {
+	kind string
+	br   *bytes.Reader
+	sr   *strings.Reader
+	bb   *bytes.Buffer
+}
+
+func newWrapSrc(kind string, data []byte, skip int) *wrapSrc {
+	w := &wrapSrc{kind: kind}
+	switch kind {
+	case "strings":
+		w.sr = strings.NewReader(string(data))
+		w.sr.Seek(int64(skip), io.SeekStart)
+	case "buffer":
+		w.bb = bytes.NewBuffer(append([]byte(nil), data...))
+		w.bb.Next(skip)
+	default:
+		w.kind = "bytes"
+		w.br = bytes.NewReader(data)
+		w.br.Seek(int64(skip), io.SeekStart)
+	}
+	return w
+}
+func (w *wrapSrc) reader() io.Reader {
+	switch w.kind {
+	case "strings":
+		return w.sr
+	case "buffer":
+		return w.bb
+	}
+	return w.br
+}
+func (w *wrapSrc) left() int {
+	switch w.kind {
+	case "strings":
+		return w.sr.Len()
+	case "buffer":
+		return w.bb.Len()
+	}
+	return w.br.Len()
+}
+
+// retarget: the owner's Reset(data) on the same object.
+func (w *wrapSrc) retarget(data []byte) {
+	switch w.kind {
+	case "strings":
+		w.sr.Reset(string(data))
+	case "buffer":
+		w.bb.Reset()
+		w.bb.Write(data)
+	default:
+		w.br.Reset(data)
+	}
+}
+func (w *wrapSrc) seek(off int64, whence int) string {
+	var a int64
+	var e error
+	switch w.kind {
+	case "strings":
+		a, e = w.sr.Seek(off, whence)
+	case "buffer":
+		return "S:-"
+	default:
+		a, e = w.br.Seek(off, whence)
+	}
+	if e != nil {
+		return "S:err"
+	}
+	return fmt.Sprintf("S:%d", a)
+}
+
+// runBrw executes a reader script over a bytes.Reader / strings.Reader / bytes.Buffer source
+// with ONE prefix.Reader that the script may Init again: on the same object re-targeted by
+// its Reset (R:<hex>), on another object already advanced by k bytes (N:<kind>:<hex>:<k>);
+// S:<off>:<whence> is a Seek by the owner of the source. It reports the bytes left in the
+// source object at every Init and at the end (the concrete wrapper model must agree: kind brw).
+func runBrw(kind string, data []byte, skip int, big bool, cs prefix.PrefixCodes, ops []string) []string {
+	var pr prefix.Reader
+	var pd prefix.Decoder
+	if len(cs) > 0 {
+		pd.Init(cs)
+	}
+	src := newWrapSrc(kind, data, skip)
+	pr.Init(src.reader(), big)
+	var res []string
+	for _, op := range ops {
+		f := strings.Split(op, ":")
+		switch f[0] {
+		case "R":
+			res = append(res, fmt.Sprintf("R:%d", src.left()))
+			src.retarget(unhx(f[1]))
+			pr.Init(src.reader(), big)
+			continue
+		case "N":
+			res = append(res, fmt.Sprintf("N:%d", src.left()))
+			k, _ := strconv.Atoi(f[3])
+			src = newWrapSrc(f[1], unhx(f[2]), k)
+			pr.Init(src.reader(), big)
+			continue
+		case "S":
+			off, _ := strconv.ParseInt(f[1], 10, 64)
+			wh, _ := strconv.Atoi(f[2])
+			res = append(res, src.seek(off, wh))
+			continue
+		}
+		r, stop := brStep(&pr, &pd, op)
+		if r != "" {
+			res = append(res, r)
+		}
+		if stop {
+			break
+		}
+	}
+	return append(res, fmt.Sprintf("left=%d", src.left()))
 }
 
 func execBio(o *Out, id, line string) {
@@ -387,6 +502,50 @@ func execBio(o *Out, id, line string) {
 					o.Violate("C10", fmt.Sprintf("bit reader over source kind %s returns %s, over %s returns %s", k, trunc(g, 200), mode, trunc(base, 200)), "bitreader-source-shape", line)
 					break
 				}
+			}
+			// the same script through the concrete model of the wrap.go wrappers (kind brw):
+			// values, offsets, errors and the bytes left in the source object must agree
+			for _, k := range wrapKinds {
+				wid := id + "w" + k[:2]
+				got := runBrw(k, data, 0, big, cs, ops)
+				o.Count("brw-" + k)
+				o.Emit(wid, "", fmt.Sprintf("brw id=%s big=%s kind=%s skip=0 src=%s codes=%s ops=%s", wid, kv["big"], k, hx(data), fmtCodes(cs, true), kv["ops"]), strings.Join(got, "|"), "")
+			}
+		}
+	case "brw":
+		data := unhx(kv["src"])
+		skip, _ := strconv.Atoi(kv["skip"])
+		k := kv["kind"]
+		got := runBrw(k, data, skip, big, cs, ops)
+		o.Count("brw-script-" + k)
+		o.Emit(id, line, fmt.Sprintf("brw id=%s big=%s kind=%s skip=%d src=%s codes=%s ops=%s", id, kv["big"], k, skip, hx(data), fmtCodes(cs, true), kv["ops"]), strings.Join(got, "|"), "brw"+k+kv["ops"]+kv["src"][:min(len(kv["src"]), 40)])
+		// C14 on the implementation alone: after the last Init the same Reader behaves as a new
+		// Reader on a new source object with the same contents and position
+		last := -1
+		for i, op := range ops {
+			if strings.HasPrefix(op, "R:") || strings.HasPrefix(op, "N:") {
+				last = i
+			}
+		}
+		if last >= 0 && len(got) > last+1 { // the script got as far as that Init
+			f := strings.Split(ops[last], ":")
+			fk, fs := k, 0
+			var fd []byte
+			if f[0] == "N" {
+				fk, fd = f[1], unhx(f[2])
+				fs, _ = strconv.Atoi(f[3])
+			} else {
+				fd = unhx(f[1])
+				for i := last - 1; i >= 0; i-- { // R keeps the kind of the current object
+					if strings.HasPrefix(ops[i], "N:") {
+						fk = strings.Split(ops[i], ":")[1]
+						break
+					}
+				}
+			}
+			fresh := runBrw(fk, fd, fs, big, cs, ops[last+1:])
+			if a, b := strings.Join(got[last+1:], "|"), strings.Join(fresh, "|"); a != b {
+				o.Violate("C14", fmt.Sprintf("prefix.Reader after a second Init on a %s source returns %s, a new Reader on the same contents returns %s", fk, trunc(a, 200), trunc(b, 200)), "wrapper-reinit", line)
 			}
 		}
 	case "bw":
@@ -623,6 +782,120 @@ func genBio(r *Rand, tier string, emit func(string)) {
 			}
 			emit(fmt.Sprintf("bw big=%d sink=%s codes=%s ops=%s", big, sink, codes, strings.Join(ops, "|")))
 		}
+	}
+	nw := 700
+	if tier == "thorough" {
+		nw = 12000
+	}
+	genBrw(r, nw, emit)
+}
+
+// genBrw: reader scripts for the concrete wrapper model (kind brw): sources of up to three
+// cache lengths (wrap.go caches 512 bytes), raw reads that bypass the cache, Seeks by the owner
+// into, before and beyond the cached window, and a second/third Init of the same Reader on the
+// same object after Reset or on another object at a non-zero offset.
+func genBrw(r *Rand, n int, emit func(string)) {
+	rnd := func(k int) []byte {
+		b := make([]byte, k)
+		for i := range b {
+			b[i] = byte(r.U64())
+		}
+		return b
+	}
+	size := func() int {
+		switch r.Intn(4) {
+		case 0:
+			return r.Intn(40)
+		case 1:
+			return 400 + r.Intn(300)
+		default:
+			return 500 + r.Intn(1200)
+		}
+	}
+	for i := 0; i < n; i++ {
+		big := r.Intn(2)
+		lens := randCompleteLens(r, 2+r.Intn(30), 3+r.Intn(12))
+		var cs []string
+		for s, l := range lens {
+			cs = append(cs, fmt.Sprintf("%d:%d", s, l))
+		}
+		kind := wrapKinds[r.Intn(3)]
+		data := rnd(size())
+		skip := 0
+		if r.Intn(3) == 0 {
+			skip = r.Intn(len(data) + 3)
+		}
+		var ops []string
+		aligned := true
+		inits := 0
+		for k := 3 + r.Intn(40); k > 0; k-- {
+			switch x := r.Intn(20); {
+			case x < 5:
+				nb := r.Intn(33)
+				if r.Intn(6) == 0 {
+					nb = 33 + r.Intn(24)
+				}
+				ops = append(ops, fmt.Sprintf("b:%d", nb))
+				aligned = aligned && nb%8 == 0
+			case x == 5:
+				ops = append(ops, fmt.Sprintf("t:%d", r.Intn(20)))
+				aligned = false
+			case x == 6:
+				ops = append(ops, "p")
+				aligned = true
+			case x < 10 && aligned:
+				m := r.Intn(30)
+				if r.Intn(3) == 0 {
+					m = r.Intn(800)
+				}
+				ops = append(ops, fmt.Sprintf("r:%d", m))
+			case x == 10:
+				ops = append(ops, "f")
+			case x == 11:
+				ops = append(ops, "y")
+				aligned = false
+			case x == 12:
+				ops = append(ops, "q")
+			case x < 16: // a Seek by the owner
+				wh := r.Intn(3)
+				off := r.Intn(40) - 20
+				switch r.Intn(4) {
+				case 0:
+					off = r.Intn(1200) - 600
+				case 1:
+					off = r.Intn(520)
+				}
+				if wh == 2 {
+					off = -r.Intn(600)
+					if r.Intn(8) == 0 {
+						off = r.Intn(5)
+					}
+				}
+				if r.Intn(40) == 0 {
+					wh = 3
+				}
+				ops = append(ops, fmt.Sprintf("S:%d:%d", off, wh))
+			case x < 18 && inits < 3 && len(ops) > 0: // Init again on the same object, re-targeted
+				ops = append(ops, "R:"+hx(rnd(size())))
+				inits++
+				aligned = true
+			case inits < 3 && len(ops) > 0: // Init again on another object, already advanced
+				d := rnd(size())
+				k := r.Intn(len(d) + 2)
+				if r.Intn(3) == 0 {
+					k = r.Intn(16)
+				}
+				nk := kind
+				if r.Intn(3) == 0 {
+					nk = wrapKinds[r.Intn(3)]
+				}
+				ops = append(ops, fmt.Sprintf("N:%s:%s:%d", nk, hx(d), k))
+				inits++
+				aligned = true
+			}
+		}
+		ops = append(ops, "b:8", "q", "f")
+		emit(fmt.Sprintf("brw big=%d kind=%s skip=%d src=%s codes=%s ops=%s", big, kind, skip, hx(data), strings.Join(cs, ","), strings.Join(ops, "|")))
 	}
 }
 
